@@ -95,6 +95,10 @@ def run(ctx) -> None:
             ok3 = False
         ok = ok1 and ok2 and ok3
         rep.add("C01.R1", f"{gvs.qname}:DEFAULT", ok, f"{gvs.module.rel}:{r.lineno}", "a signature default is used only after state, graph-bound and inner-bound look-ups failed" if ok else f"a signature default can win over a higher-priority source (after-state={ok1}, after-graph-bound={ok2}, after-inner-bound={ok3})")
+    # the BOUND table itself is complete (scope narrowing never drops a binding)
+    from .c08 import check_inner_bound_merge_complete
+
+    check_inner_bound_merge_complete(ctx, "C01.R1")
     # R1b
     ini = db.func("runners._shared.helpers.initialize_state")
     loops = [n for n in walk_local(ini.node) if isinstance(n, ast.For) and "values.items()" in src(n.iter)]
